@@ -36,7 +36,7 @@ try:
         dst = os.path.join(wt, rel) if rel.endswith(".go") else os.path.join(wt, rel, f)
         os.makedirs(os.path.dirname(dst), exist_ok=True)
         shutil.copy(src, dst); demo_files.append(dst)
-    cmd = meta["demo_cmd"].replace(f"/tmp/{name}-out", "@@OUT@@").replace(f"/tmp/{name}", wt).replace("@@OUT@@", out)
+    cmd = meta["demo_cmd"].replace(f"/tmp/{name}-out", "@@OUT@@").replace(f"/tmp/{name}", wt).replace("@@OUT@@", out).replace("<worktree>", wt).replace("<lal>", wt).replace("WORKTREE", wt)
     if "export GOFLAGS" not in cmd:
         cmd = "export GOFLAGS=-mod=mod GOPROXY=off GOSUMDB=off GOTOOLCHAIN=local; " + cmd
     base = sh(cmd, cwd=wt)
